@@ -38,7 +38,7 @@ self.build_panel_map()
 """)
     ok = bb is not None
     if ok:
-        test = [n for n in walk_no_nested(p.node) if isinstance(n, ast.If) and unparse(n.test) == f'{bb["_G"]} != {bb["_N"]}']
+        test = [n for n in walk_no_nested(p.node) if isinstance(n, ast.If) and any(isinstance(x, ast.Raise) for x in n.body)]
         build = [n for n in walk_no_nested(p.node) if isinstance(n, ast.Expr) and unparse(n.value) == 'self.build_panel_map()']
         ok = len(test) == 1 and len(build) == 1 and cfg.dominates(cfg.node_of(test[0]), cfg.node_of(build[0]))
     ctx.add('C09.R1', 'Database.panel', ok, p, 'groups of consecutive rows are compared with the number of individuals (after sorting) and a mismatch raises before the map is built' if ok else 'the contiguity test of Database.panel changed or no longer precedes build_panel_map', 'contiguity')
